@@ -212,14 +212,22 @@ pub fn run(run: &mut Run) {
             push_all(n, c, &v3, &mut cases);
         }
     }
+    for c in 0..=2 {
+        push_all(4, c, &v3, &mut cases);
+    }
+    push_all(4, 3, &v2, &mut cases);
+    push_all(2, 4, &v3, &mut cases);
+    push_all(3, 4, &v2, &mut cases);
+    push_all(5, 2, &v2, &mut cases);
     if !quick {
-        for c in 0..=2 {
-            push_all(4, c, &v3, &mut cases);
-        }
-        push_all(4, 3, &v2, &mut cases);
-        push_all(2, 4, &v3, &mut cases);
-        push_all(3, 4, &v2, &mut cases);
-        push_all(5, 2, &v2, &mut cases);
+        push_all(4, 3, &v3, &mut cases);
+        push_all(3, 4, &v3, &mut cases);
+        push_all(4, 4, &v2, &mut cases);
+        push_all(5, 3, &v2, &mut cases);
+        push_all(6, 2, &v2, &mut cases);
+        push_all(2, 5, &v2, &mut cases);
+        push_all(3, 5, &v2, &mut cases);
+        push_all(1, 5, &v3, &mut cases);
     }
     let results = mcx::par_map(cases.len(), |i| lexicase_case(&cases[i]));
     let mut nontrivial = 0;
@@ -243,7 +251,7 @@ pub fn run(run: &mut Run) {
     run.distinct_nontrivial = nontrivial;
     run.rule = "every result matrix (n individuals x c cases over a small value set, ties and duplicates included) x both polarities x configured case counts {c, c-1, 0}; all word sequences of the Rep(12!, max(n,c)!) alphabet explored on the real Lexicase::select; exact law compared with the enumeration of all case orders; non-trivial = scenarios whose law has more than one outcome".into();
     run.bound("quick", json!(quick));
-    run.bound("matrices", json!(if quick { "n<=3, c<=3 over 3 values" } else { "n<=3, c<=3 over 3 values; n=4, c<=2 and n=2, c=4 over 3 values; n=4, c=3 / n=3, c=4 / n=5, c=2 over 2 values" }));
+    run.bound("matrices", json!(if quick { "n<=3, c<=3 over 3 values; n=4, c<=2 and n=2, c=4 over 3 values; n=4, c=3 / n=3, c=4 / n=5, c=2 over 2 values" } else { "quick set plus n=4, c=3 and n=3, c=4 and n=1, c=5 over 3 values; n=4, c=4 / n=5, c=3 / n=6, c=2 / n=2, c=5 / n=3, c=5 over 2 values" }));
     run.assumptions = vec![
         "rand 0.9 SliceRandom::shuffle consumes one u32 below 12! and uses it modulo s! (calibrated at start-up); if the subject stops using it the law is recomputed on the generic grid alphabet".into(),
     ];
